@@ -2927,19 +2927,17 @@ pub(crate) async fn attach_demuxed_tcp_stream(
 }
 
 pub(crate) async fn tcp_write_all(write: &Arc<Mutex<TcpWriteHalf>>, data: &[u8]) -> Result<()> {
+    // One acquisition for the whole buffer: callers pass complete RFC 4571 frames, and a
+    // short write (send buffer nearly full) must not let another writer's frame in between
+    // the two parts of this one.
+    let guard = write.lock().await;
     let mut offset = 0;
     while offset < data.len() {
-        let guard = write.lock().await;
-        loop {
-            match guard.try_write(&data[offset..]) {
-                Ok(0) => guard.writable().await?,
-                Ok(n) => {
-                    offset += n;
-                    break;
-                }
-                Err(e) if e.kind() == ErrorKind::WouldBlock => guard.writable().await?,
-                Err(e) => return Err(anyhow!("TCP write failed: {}", e)),
-            }
+        match guard.try_write(&data[offset..]) {
+            Ok(0) => guard.writable().await?,
+            Ok(n) => offset += n,
+            Err(e) if e.kind() == ErrorKind::WouldBlock => guard.writable().await?,
+            Err(e) => return Err(anyhow!("TCP write failed: {}", e)),
         }
     }
     Ok(())
